@@ -120,6 +120,11 @@ type bucketData struct {
 	hash         []byte
 	etag         string
 	metadata     map[string]string
+
+	// unversioned is true if the item was stored while versioning was not
+	// enabled for the bucket (S3 calls this the "null" version). It is the
+	// only version that is overwritten while versioning is suspended.
+	unversioned bool
 }
 
 func (bi *bucketData) toObject(rangeRequest *gofakes3.ObjectRangeRequest, withBody bool) (obj *gofakes3.Object, err error) {
@@ -207,6 +212,7 @@ func (b *bucket) objectVersion(objectName string, versionID gofakes3.VersionID) 
 func (b *bucket) put(name string, item *bucketData) {
 	// Always generate a version for convenience; we can just mask it on return.
 	item.versionID = b.versionGen()
+	item.unversioned = b.versioning != gofakes3.VersioningEnabled
 
 	object := b.object(name)
 	if object == nil {
@@ -214,7 +220,11 @@ func (b *bucket) put(name string, item *bucketData) {
 		b.objects.Set(name, object)
 	}
 
-	if b.versioning == gofakes3.VersioningEnabled {
+	// While versioning is suspended only the "null" version may be replaced;
+	// a current version that was created while versioning was enabled has to be
+	// kept, exactly as it is while versioning is enabled:
+	if b.versioning == gofakes3.VersioningEnabled ||
+		(b.versioning == gofakes3.VersioningSuspended && object.data != nil && !object.data.unversioned) {
 		if object.data != nil {
 			if object.versions == nil {
 				object.versions = skiplist.NewCustomMap(func(l, r interface{}) bool {
@@ -235,7 +245,12 @@ func (b *bucket) rm(name string, at time.Time) (result gofakes3.ObjectDeleteResu
 		return result, nil
 	}
 
-	if b.versioning == gofakes3.VersioningEnabled {
+	// While versioning is suspended, versions created while it was enabled must
+	// survive a delete too; the key is hidden by a delete marker instead:
+	keepVersions := b.versioning == gofakes3.VersioningSuspended &&
+		((object.data != nil && !object.data.unversioned) || (object.versions != nil && object.versions.Len() > 0))
+
+	if b.versioning == gofakes3.VersioningEnabled || keepVersions {
 		item := &bucketData{lastModified: at, name: name, deleteMarker: true}
 		b.put(name, item)
 		result.IsDeleteMarker = true
